@@ -6,17 +6,23 @@ import tempfile
 import time
 from lib.core import *
 from gen import c05_linearization as tr
+from gen import c05_xnorth as trx
+from gen import c05_assemble as tra
 
 ID = "C05"
-PROPS_FILES = ["Gama/Props/C05.lean"]
-LEAN_TARGETS = ["Gama.Props.C05"]
+PROPS_FILES = ["Gama/Props/C05.lean", "Gama/Props/C05Consistency.lean"]
+LEAN_TARGETS = ["Gama.Props.C05", "Gama.Props.C05Consistency"]
 DRIVERS = ["drv_lin"]
 RULE = ("small in-memory networks (2-5 points, 1-2 stand-points, 3-9 observations) over all 13 observation classes x "
         "8 axes codes x 2 angle senses x bearing quadrants/near-axis bearings x free/fixed/constrained/unused mixes x "
         "2D/3D x national-grid magnitudes x short sights around the 1e-6 cut-off; an observation is non-trivial when "
         "it produced at least one coefficient for a free coordinate; distinct by (class, status mix, quadrant, family)")
 LEVEL_TEXT = ("Lean 4 theorems over R (Mathlib HasDerivAt / Real.sqrt / Complex.arg / Real.arccos) about Lean "
-              "definitions REGENERATED on every run from local_linearization.cpp and bearing.cpp by a translator; "
+              "definitions REGENERATED on every run from local_linearization.cpp, bearing.cpp, gamadata.cpp (xNorthAngle) "
+              "and network.cpp (index reset, assembly of the sparse and the dense design matrix) by translators, up to the "
+              "assembled design matrix of a whole pass (every entry = derivative wrt the unknown of its column, all role "
+              "coincidences) and the azimuth right-hand side in geographic terms; consistency theorems relate the "
+              "duplicated models of bearing_distance and of the numbering of unknowns (C06, C08, C18); "
               "the same generated definitions are executed at Float next to the real LocalLinearization visitor "
               "(correspondence) and the implementation's coefficients are compared with finite differences of its "
               "own right-hand side (oracle).")
@@ -25,9 +31,14 @@ LEVEL_NOTE = ("Theorems are about real arithmetic and the real functions sin/cos
               "The C++ while-loops are modelled with fuel (non-termination = error value); termination is proved over R only.")
 TECHNIQUE = "Lean 4 proof against a translator-generated model + model/implementation correspondence + finite-difference oracle"
 TRUSTED = ["tools/gen/c05_linearization.py (C++ mini front end: tokenizer, macro expansion, expression/statement parser)",
-           "harness/c05_lin.cpp, lean/Driver/Lin.lean, generator and tolerances in tools/props/c05.py",
+           "tools/gen/c05_xnorth.py (PointData::xNorthAngle, handedness predicates, consistent()), "
+           "tools/gen/c05_assemble.py (shape of the assembly loops of project_equations, operator of the dense copy)",
+           "harness/c05_lin.cpp, harness/c05_net.cpp, lean/Driver/Lin.lean, generators and tolerances in tools/props/c05.py",
            "hand-written Lean models of lpoint.h status bits, Observation constructors (norm_rad_val, d<=0), "
-           "PointData::xNorthAngle, index-on-first-use (Gama/Model/LinTypes.lean), tied by correspondence only"]
+           "index-on-first-use (Gama/Model/LinTypes.lean), the pass over the observation list and the assembled "
+           "matrix (Gama/Model/LinPass.lean: passFrom, rowSum, denseRow), tied by correspondence",
+           "the geographic reading of the axes codes (CS.xDir / CS.yDir / Dir.az in Gama/Lemmas/LinXNorth.lean) is a "
+           "specification, checked end to end by azimuths generated from geographic azimuths"]
 MODELLED = ["IEEE-754 rounding (proofs over R)", "libm sin/cos/atan2/acos/sqrt (real functions in the theorems)",
             "M_PI read as the real number pi", "termination of the wrap loops at double (fuel in the model)",
             "StandPoint::orientation() throwing when no orientation is set (precondition: set)",
@@ -46,7 +57,18 @@ def hx(x):
 
 
 def translate(ctx):
-    tr.translate(ctx.repo, ctx.lean)
+    # every translator runs even if an earlier one gives up, so that no generated file is left over
+    # from another tree
+    first = None
+    for t in (tr,        # Gen/Linearization.lean: the 13 member functions, bearing_distance, reset guard
+              trx,       # Gen/XNorth.lean: PointData::xNorthAngle, handedness predicates, consistent()
+              tra):      # Gen/LinAssembly.lean: shape of the assembly loops, `=` / `+=` of the dense copy
+        try:
+            t.translate(ctx.repo, ctx.lean)
+        except TieBroken as e:
+            first = first or e
+    if first:
+        raise first
 
 
 # ----------------------------------------------------------------------------- geometry helpers
@@ -58,12 +80,12 @@ def bearing(a, b):
 
 
 def xnorth(cs, rh):
-    lh = {0: 300, 6: 300, 1: 400, 4: 400, 2: 200, 5: 200, 3: 100, 7: 100}[cs]
-    if rh:
-        lh = 400 - lh
-    if lh == 400:
-        lh = 0
-    return lh * math.pi / 200.0
+    """SPECIFICATION (not the code's table): north seen from the +x axis in the angle sense in force =
+    minus the bearing of the +x axis from north; axes code = compass directions of +x, +y"""
+    name = ["en", "nw", "se", "ws", "ne", "sw", "es", "wn"][cs]
+    az = {"n": 0, "e": 100, "s": 200, "w": 300}[name[0]]        # clockwise azimuth of the +x axis
+    sense = (400 - az) % 400 if rh else az                       # ... counter-clockwise for right-handed angles
+    return ((400 - sense) % 400) * math.pi / 200.0
 
 
 def true_value(cls, P, frm, to, fs, ori, xn):
@@ -558,6 +580,10 @@ def correspond(ctx, corr):
     for meta, ob, bad, lines in fails[:20]:
         corr.fail(bad["what"], {"stream": "lin-fd", "ops": lines, "detail": bad, "meta": meta, "ob": ob},
                   "LocalLinearization::" + ob["cls"].lower(), json.dumps(bad))
+    # hypothesis h0 of C05_bearing_distance_models_agree at Float (`Scalar.ofNat 0` is the double +0.0)
+    z, _ = run_cases(drv, [["zero"]])
+    if [l for l in z[0] if not l.startswith("case")] != ["flag 1"]:
+        corr.disagree("lin", ["zero"], ["flag 1"], z[0], "Scalar.ofNat 0 and 0 differ at Float")
     # network level: project_equations run repeatedly on one LocalNetwork
     for f in net_stream(ctx, corr, ctx.size(40, 1500))[:20]:
         corr.failures.append(f)
@@ -756,7 +782,7 @@ def split_passes(out):
     passes, cur = [], None
     for l in out:
         if l.startswith("P cs"):
-            cur = {"P": [], "rows": [], "unk": {}, "n": None}
+            cur = {"P": [], "rows": [], "dense": [], "unk": {}, "n": None}
             passes.append(cur)
         if cur is None:
             continue
@@ -766,6 +792,11 @@ def split_passes(out):
             t = l.split()
             n = int(t[3])
             cur["rows"].append((hex2float(t[2]), [(int(t[4 + 2 * i]), hex2float(t[5 + 2 * i])) for i in range(n)]))
+        elif l.startswith("R dense"):
+            t = l.split()
+            n = int(t[3])
+            cur["dense"].append((hex2float(t[2]), [(int(t[4 + 2 * i]), None if t[5 + 2 * i] == "out-of-range" else hex2float(t[5 + 2 * i]))
+                                                     for i in range(n)]))
         elif l.startswith("R unk"):
             t = l.split()
             cur["unk"][int(t[2])] = tuple(t[3:])
@@ -781,11 +812,13 @@ def model_lines(passes):
     for ps in passes:
         head = [l for l in ps["P"] if not l.startswith("obs")]
         obs = [l for l in ps["P"] if l.startswith("obs")]
-        lines += head + ["reset"] + obs
+        lines += head + ["reset"]
+        for o in obs:
+            lines += [o, "asm"]          # `asm`: the row as assembled (sum per column, dense entry per column)
         ids = [l.split()[1] for l in head if l.startswith("pt ")]
         sps = [l.split()[1] for l in head if l.startswith("sp ")]
         lines += [f"idx {i}" for i in ids] + [f"idxo {k}" for k in sps] + ["maxn"]
-        marks.append((len(head) + 1, len(obs), ids, sps))
+        marks.append((len(head) + 1, 2 * len(obs), ids, sps))
     return lines, marks
 
 
@@ -793,9 +826,27 @@ def compare_pass(ps, mout, mark):
     """implementation pass vs model output segment; returns None or a description"""
     nhead, nobs, ids, sps = mark
     seg = mout[nhead:]
-    rows = seg[:nobs]
-    if len(rows) != len(ps["rows"]):
+    rows = seg[:nobs:2]
+    asms = seg[1:nobs:2]
+    if len(rows) != len(ps["rows"]) or len(asms) != len(ps["dense"]):
         return "row count"
+    for r, ((w, dent), al) in enumerate(zip(ps["dense"], asms)):
+        # the assembled row: model (`rowSum`, `denseRow` with the operator read from network.cpp) vs the dense
+        # matrix A of the implementation (whitened: times w = m0/stdev for an uncorrelated cluster)
+        t = al.split()
+        if not t or t[0] != "asm":
+            return "model: " + al
+        k = int(t[1])
+        mod = [(int(t[2 + 3 * i]), hex2float(t[3 + 3 * i]), hex2float(t[4 + 3 * i])) for i in range(k)]
+        if [c for c, _, _ in mod] != [c for c, _ in dent]:
+            return f"assembled columns differ in row {r + 1}: impl {[c for c, _ in dent]} model {[c for c, _, _ in mod]}"
+        if math.isfinite(w):
+            scale = max([abs(d) for _, _, d in mod] + [abs(x) for _, x, _ in mod] + [1e-300]) * abs(w)
+            for (c, v), (_, sm, dn) in zip(dent, mod):
+                if v is None:
+                    return f"dense entry outside the matrix: row {r + 1} column {c}"
+                if math.isfinite(dn) and math.isfinite(v) and abs(v - dn * w) > 1e-11 * scale:
+                    return f"dense entry differs in row {r + 1} column {c}: impl {v!r} model {dn * w!r} (= {dn!r} * w)"
     for (rhs, ent), ml in zip(ps["rows"], rows):
         L = parse_lin(ml)
         if L is None:
@@ -850,6 +901,47 @@ def label_check(ps):
         for c, v in ent:
             if not 1 <= c <= cols:
                 return {"what": "row entry outside the design matrix", "row": r + 1, "column": c, "columns": cols}
+    return None
+
+
+def dense_check(ps):
+    """oracle (implementation only): the dense design matrix A (what gso, svd, cholesky solve with)
+    holds, in every column a row refers to, the SUM of the coefficients the linearisation pushed for
+    that column (times the whitening factor of the row) — i.e. what the consumers of the sparse matrix
+    (envelope) see.  A row names an unknown twice when two roles coincide (dh from a point to itself,
+    angle with identical targets)."""
+    obs = [l for l in ps["P"] if l.startswith("obs")]
+    for r, ((rhs, ent), (w, dent)) in enumerate(zip(ps["rows"], ps["dense"])):
+        if not math.isfinite(w):
+            continue
+        sums = {}
+        for c, v in ent:
+            sums[c] = sums.get(c, 0.0) + v
+        scale = max([abs(v) for _, v in ent] + [1e-300]) * abs(w)
+        for c, v in dent:
+            if v is None or not math.isfinite(v) or not math.isfinite(sums[c]):
+                continue
+            if abs(v - sums[c] * w) > 1e-11 * scale:
+                return {"what": "dense design matrix entry is not the sum of the coefficients pushed for that unknown",
+                        "row": r + 1, "observation": obs[r] if r < len(obs) else "?", "column": c,
+                        "label": list(ps["unk"].get(c, ("?",))), "dense_entry": v, "sum_of_pushes_times_weight": sums[c] * w,
+                        "pushes": [[cc, vv] for cc, vv in ent], "weight": w}
+    return None
+
+
+def geo_azimuth_check(ps, meta):
+    """oracle (implementation only, generated networks): azimuths were generated as the GEOGRAPHIC azimuth of
+    the line (clockwise from north for left-handed angles, counter-clockwise otherwise; `_north_angle`, which
+    knows nothing of gama's internal frame) + 13 cc noise, approximate coordinates are within 0.3 m over sights
+    > 60 m; so the right-hand side of an azimuth row must be far below 10 gon.  A wrong entry of the
+    xNorthAngle table is off by a multiple of 100 gon."""
+    if meta.get("corpus"):
+        return None
+    obs = [l for l in ps["P"] if l.startswith("obs")]
+    for r, ((rhs, ent), o) in enumerate(zip(ps["rows"], obs)):
+        if o.split()[1] == "Azimuth" and math.isfinite(rhs) and abs(rhs) > 10e4:
+            return {"what": "azimuth right-hand side is not observed - geographic azimuth of the line",
+                    "row": r + 1, "observation": o, "rhs_cc": rhs, "axes": meta.get("axes"), "angles": meta.get("angles")}
     return None
 
 
@@ -974,10 +1066,12 @@ def net_stream(ctx, corr, count, stop_first=False):
                           if i == 0 and k == 1 else None)
                 if why:
                     corr.disagree("net", payload["ops"] + [f"pass {k + 1}"], [why], ["(see replay: gkf)"], why)
-                bad = label_check(ps)
+                bad = label_check(ps) or dense_check(ps) or (geo_azimuth_check(ps, meta) if k == 0 else None)
+                corr.count("net_azimuth_rows", sum(1 for l in ps["P"] if l.startswith("obs Azimuth")))
                 if bad:
                     fails.append(Failure(bad["what"] + f" (project_equations pass {k + 1})", dict(payload, detail=bad, pass_no=k + 1),
                                          "LocalNetwork::project_equations", json.dumps(bad)))
+                corr.count("net_rows_with_repeated_column", sum(1 for _, ent in ps["rows"] if len({c for c, _ in ent}) < len(ent)))
             # finite differences on the second pass
             ops2, plan = fd_ops(passes[1])
             fdcases.append([cases[i][0]] + NET_PREFIX + ops2)
@@ -1081,7 +1175,7 @@ def replay_net(ctx, inp):
             print(crash_head(exe, ops))
         for k, ps in enumerate(passes):
             print(f"pass {k + 1}: {ps['n']} unknowns:", " | ".join(f"{j}:{' '.join(v)}" for j, v in sorted(ps["unk"].items())))
-            still = still or label_check(ps)
+            still = still or label_check(ps) or dense_check(ps)
         if not still and len(passes) >= 2:
             ops2, plan = fd_ops(passes[1])
             out2, cr2 = run_cases(exe, [[f"load {p}"] + NET_PREFIX + ops2])
